@@ -178,9 +178,11 @@ class Dendrogram(object):
                 # 1 is absorbed for large magnitudes: step to the next float below
                 min_value = np.nextafter(min_value, -np.inf)
 
-        if isinstance(min_value, float):
-            # a Python float would be rounded to the precision of float32 /
-            # float16 data before being compared with it
+        if isinstance(min_value, float) or (
+                isinstance(min_value, int) and not isinstance(min_value, bool)
+                and np.issubdtype(data.dtype, np.floating)):
+            # a Python float (or int) would be rounded to the precision of
+            # float32 / float16 data before being compared with it
             min_value = np.float64(min_value)
 
         self = Dendrogram()
